@@ -1707,13 +1707,23 @@ Proof.
     rewrite ?(st_mark Failed x H); rewrite ?st_set_mode, ?st_shift, ?st_put, ?st_flush by assumption; reflexivity.
 Qed.
 
+Lemma st_drop2 x : st (drop2 x) = st x. Proof. reflexivity. Qed.
+Lemma st_cdata_step x c : st x <> Clean -> st (cdata_step x c) = st x.
+Proof.
+  intros H. unfold cdata_step.
+  repeat match goal with |- context [if ?b then _ else _] => destruct b end;
+    rewrite ?(st_mark Failed x H); rewrite ?st_set_mode, ?st_shift, ?st_put; rewrite ?st_flush by (rewrite st_drop2; assumption);
+    rewrite ?st_drop2; reflexivity.
+Qed.
+
 Lemma st_sticky x c : st x <> Clean -> st (lex_step x c) = st x.
 Proof.
   intros H. unfold lex_step.
-  destruct (mode x);
+  destruct (mode x); try (apply st_cdata_step; assumption);
     repeat match goal with
            | |- context [if ?b then _ else _] => destruct b
            | |- context [match decode_entity ?r with _ => _ end] => destruct (decode_entity r)
+           | |- context [match frev ?r with _ => _ end] => destruct (frev r)
            end;
     rewrite ?(st_mark Failed x H), ?(st_mark Unmod x H);
     rewrite ?st_text_step, ?st_reset_b, ?st_set_mode, ?st_emit, ?st_puts, ?st_put, ?st_junk by (rewrite ?st_reset_b, ?st_set_mode, ?st_puts, ?st_put; assumption);
